@@ -1278,6 +1278,12 @@ func runMat(c *vrt.Ctx) {
 					continue
 				}
 				rejected.Add(1)
+				if p != nil {
+					sampMat.offer(c, 1, func() any {
+						return map[string]any{"sub_check": "mat", "operation": k.op, "perturbation": k.fault, "outcome": fmt.Sprintf("panic %T: %s", p.Value, p.Msg),
+							"receiver_unchanged": sameState(before, matState(recv))}
+					})
+				}
 				if p == nil {
 					c.Violation(fmt.Sprintf("mat.%s|%s|returned-normally", k.op, k.fault),
 						fmt.Sprintf("%s: perturbation %q was accepted (rep %d)", k.op, k.fault, rep), nil)
